@@ -42,6 +42,12 @@ CLAIMS = {
  "C17": ("structural necessary conditions: write-queue rules of C10; sniffer replay window, advance-by-copied, record-exactly-when-sniffing, reset; serve rewinds before hand-off exactly on the matched path; websocket reader dropped exactly at io.EOF, next message only when none is current, data frames only, reads into the caller's buffer; chunking arithmetic for all inputs is not decided",
          "trusts go/ssa; bytes.Buffer and gorilla/websocket contracts",
          "static analysis: SSA guard cut-sets two-sided, store/argument provenance, dominance ordering, lockset dataflow"),
+ "C11": ("structural necessary conditions: CreateKey/ExtendKey guard cut-sets (who may mint, SetTarget must succeed before encryption), provenance of copied fields and of target/expiry arguments, ordering of permission writes (master bit cleared last; extend cleared then AND with the request, nothing after), bit-subset analysis of access(), sibling rule that no read/write handler accepts an extendable key, permission accessor normal forms; the runtime authority of the minted key is not decided",
+         "trusts go/ssa; security.Key setters write only their field",
+         "static analysis: SSA guard cut-sets, argument provenance, write-order dominance, constant bit-set analysis, sibling cross-check"),
+ "C12": ("integrity-before-trust rule over every license.Cipher implementation: search of DecryptKey's reachable code for an authenticity primitive; all three ciphers lack one (three recorded known findings, design-level); the remaining tamper evidence (contract.Validate conjuncts and its presence on every Authorize success path) is checked; a new unauthenticated cipher or a weakened Validate is a new violation; acceptance probabilities are not decided",
+         "list of authenticity primitives; go/ssa; in-scope call graph",
+         "static analysis: call-graph reachability of authenticity primitives, SSA guard cut-sets, comparison normal form"),
 }
 
 NOT_YET = "no sound structural rule implemented yet in this static-analysis framework (see DESIGN.md §4 for the clauses planned); behavioural clauses quantify over runtime values"
